@@ -223,7 +223,10 @@ func (t *Tokenizer) tokenizeBuffer(buf []byte, last bool) error {
 			}
 		case numComma:
 			t.handleNum()
-			if 0 < len(t.starts) && t.starts[len(t.starts)-1] == '{' {
+			if len(t.starts) == 0 {
+				return t.newError(off, "unexpected comma")
+			}
+			if t.starts[len(t.starts)-1] == '{' {
 				t.mode = keyMap
 			} else {
 				t.mode = commaMap
@@ -460,7 +463,7 @@ func (t *Tokenizer) tokenizeBuffer(buf []byte, last bool) error {
 		}
 	}
 	if last {
-		if len(t.mode) == 256 { // valid finishing maps are one byte longer
+		if 0 < len(t.starts) || len(t.mode) == 256 { // valid finishing maps are one byte longer
 			return t.newError(off, "incomplete JSON")
 		}
 		if t.mode[256] == 'n' {
